@@ -1,14 +1,16 @@
 #!/bin/bash
 # usage: evalmut.sh <patch.diff> <tier> <Cxx> [Cyy ...]
-# Applies a seeded change to /repo, runs the given checks, and undoes it straight afterwards.
+# Runs the given checks against a scratch worktree of /repo HEAD with the seeded change applied
+# (VERIF_REPO), removes the worktree afterwards and restores the committed evidence files.
 P=$(realpath "$1"); TIER=$2; shift 2
 cd /verif
-git -C /repo diff --quiet || { echo "/repo has local modifications"; exit 2; }
-git -C /repo apply "$P" || { echo "patch does not apply"; exit 2; }
-trap 'git -C /repo checkout -- . ; git -C /verif checkout -- evidence 2>/dev/null' EXIT
+WT=/tmp/eval_$$
+git -C /repo worktree add -q --detach $WT HEAD || exit 2
+trap 'git -C /repo worktree remove --force $WT; rm -rf /verif/build/alt_*; git -C /verif checkout -- evidence 2>/dev/null' EXIT
+git -C $WT apply "$P" || { echo "patch does not apply"; exit 2; }
 for c in "$@"; do
-  out=$(./check $c $TIER 2>&1); rc=$?
-  echo "== $c $TIER rc=$rc: $(echo "$out" | grep -c '^VIOLATION') violation line(s)"
-  echo "$out" | grep -A1 '^VIOLATION' | head -4 | cut -c1-400
+  out=$(VERIF_REPO=$WT ./check $c $TIER 2>&1); rc=$?
+  echo "== $c $TIER rc=$rc: $(echo "$out" | grep -c '^VIOLATION') violation line(s); $(echo "$out" | tail -1)"
+  echo "$out" | grep -A1 '^VIOLATION' | head -4 | cut -c1-500
   echo "$out" | grep '^INCONCLUSIVE' | head -2 | cut -c1-300
 done
